@@ -1,7 +1,8 @@
 (* C02: refinement for histories whose on_miss raises and / or re-enters the cache:
    observations reproduced by Model/C02_Impure.v are accepted by Spec/C02_SpecImpure.v. *)
 From Boltons Require Import Lib.Prelude Lib.C02_Syntax Spec.C02_Spec Spec.C02_SpecImpure Model.C02_Model
-  Model.C02_Impure Proofs.C02_Lists Proofs.C02_Eqb Proofs.C02_Inv Proofs.C02_Refine Proofs.C02_Heap.
+  Model.C02_Impure Proofs.C02_Lists Proofs.C02_Eqb Proofs.C02_Inv Proofs.C02_Refine Proofs.C02_Heap
+  Proofs.C02_Counters.
 Close Scope N_scope.
 Open Scope nat_scope.
 
@@ -18,79 +19,150 @@ Proof.
     try discriminate; inversion A; reflexivity.
 Qed.
 
-(* a script operation leaves counters and call log alone *)
-Lemma r_sets_meta c kvs : forall r,
-  r_hit (r_sets c r kvs) = r_hit r /\ r_miss (r_sets c r kvs) = r_miss r
-  /\ r_soft (r_sets c r kvs) = r_soft r /\ r_calls (r_sets c r kvs) = r_calls r.
-Proof.
-  induction kvs as [|[k v] rest IH]; intro r; [auto|].
-  unfold r_sets in *. simpl. destruct (IH (r_set c r k v)) as [A [B [C D]]]. simpl in *. auto.
-Qed.
+(* the slack miss - soft never shrinks *)
+Definition mono (m m' : cache) : Prop := forall d, (soft m + d <= miss m)%N -> (soft m' + d <= miss m')%N.
 
-Lemma script_step_meta c r o :
-  script_op o = true ->
-  let r' := fst (spec_step c r o) in
-  r_hit r' = r_hit r /\ r_miss r' = r_miss r /\ r_soft r' = r_soft r /\ r_calls r' = r_calls r.
-Proof.
-  destruct o; simpl; intro H; try discriminate H.
-  - auto.
-  - destruct (r_has r k); simpl; auto.
-  - destruct d; [|discriminate H]. destruct (d_get (r_items r) k); simpl; auto.
-  - auto.
-Qed.
+Lemma mono_refl m : mono m m. Proof. intros d H. exact H. Qed.
+Lemma mono_trans a b c0 : mono a b -> mono b c0 -> mono a c0.
+Proof. intros H1 H2 d H. apply H2. now apply H1. Qed.
 
-Lemma run_script_sim c ops : forall m,
-  1 <= c_max c -> Inv c m -> forallb script_op ops = true ->
-  Inv c (run_script c m ops) /\ abs (run_script c m ops) = r_run_script c (abs m) ops
-  /\ calls (run_script c m ops) = calls m /\ hit (run_script c m ops) = hit m
-  /\ miss (run_script c m ops) = miss m /\ soft (run_script c m ops) = soft m.
-Proof.
-  induction ops as [|o rest IH]; intros m Hmax I OK; simpl.
-  - auto 7.
-  - simpl in OK. apply andb_true_iff in OK as [O1 O2].
-    destruct (step1_sim c m o Hmax I) as [m' [out [E [I' [A _]]]]].
-    apply accept_det_inv in A; [|now apply script_not_relational].
-    rewrite E. simpl. destruct (IH m' Hmax I' O2) as [I2 [A2 [C2 [H2 [M2 S2]]]]].
-    pose proof (script_step_meta c (abs m) o O1) as [MH [MM [MS MC]]]. rewrite <- A in MH, MM, MS, MC. simpl in *.
-    split; [exact I2|]. split; [rewrite A2, A; reflexivity|].
-    repeat split; congruence.
-Qed.
+Section Nested.
+Variable c : cfg.
+Hypothesis Hmax : 1 <= c_max c.
 
-Lemma xgetitem_sim c beh m k :
-  1 <= c_max c -> scripts_ok beh -> Inv c m ->
-  exists m' rv, xgetitem c beh m k = (m', rv) /\ Inv c m'
-    /\ xr_lookup c beh (abs m) k = (abs m', rv)
+(* what it means for a model lookup to simulate a reference lookup *)
+Definition LK_SIM (gi : cache -> K -> cache * res V) (lk : rcache -> K -> rcache * res V) : Prop :=
+  forall m k, Inv c m ->
+  exists m' rv, gi m k = (m', rv) /\ Inv c m' /\ lk (abs m) k = (abs m', rv)
     /\ (exists new, calls m' = new ++ calls m)
-    /\ ((exists e, rv = Raise e) -> (soft m' < miss m')%N).
+    /\ mono m m'
+    /\ ((exists e, rv = Raise e) -> forall d, (soft m + d <= miss m)%N -> (soft m' + d + 1 <= miss m')%N).
+
+Lemma plain_step_eq m o :
+  script_op o = true -> is_lookup o = false -> Inv c m ->
+  exists m' out, step1 c m o = (m', out) /\ Inv c m' /\ spec_step c (abs m) o = (abs m', out)
+    /\ (exists new, calls m' = new ++ calls m) /\ mono m m'.
 Proof.
-  intros Hmax SOK I. pose proof I as [NR NS SAME LEN CAP SOFT].
-  unfold xgetitem, xr_lookup; simpl.
-  destruct (d_get (ring m) k) as [v|] eqn:G.
-  - eexists. exists (Ok v). split; [reflexivity|]. split.
-    + assert (Hk : In k (keys (ring m))) by (eapply d_get_some_keys; eauto).
-      destruct (c_cls c); constructor; simpl; try assumption.
-      * apply nodup_keys_snoc; [now apply nodup_del|now apply not_in_keys_del].
-      * intro k'. rewrite d_get_move_end by assumption. apply SAME.
-      * rewrite app_length. simpl. rewrite <- (length_del_in (ring m) k) in LEN by assumption. lia.
-      * rewrite app_length. simpl. rewrite <- (length_del_in (ring m) k) in CAP by assumption. lia.
-    + split; [reflexivity|]. split; [exists []; reflexivity|]. intros [e E]. discriminate.
-  - destruct (c_on_miss c) as [f|] eqn:OM.
+  intros SO NL I. destruct (step1_sim c m o Hmax I) as [m' [out [E [I' [A C]]]]].
+  exists m', out. split; [exact E|]. split; [exact I'|].
+  assert (R : relational o = false) by (destruct o; simpl in *; congruence).
+  assert (SS : spec_step c (abs m) o = (abs m', out)).
+  { destruct o; simpl in R; try discriminate; unfold spec_accept in A;
+      destruct (spec_step c (abs m) _) as [r1 out1]; destruct (res_eqb outv_eqb out out1) eqn:EQ;
+      try discriminate; apply res_eqb_eq in EQ; inversion A; subst; reflexivity. }
+  split; [exact SS|]. split; [exact C|].
+  pose proof (step1_counters c m o Hmax I) as CN. rewrite E in CN. simpl in CN.
+  assert (D : lookup_delta c (d_mem (store m)) o = (0, 0, 0)%N) by (destruct o; simpl in *; congruence).
+  rewrite D in CN. unfold counters, add3 in CN. inversion CN as [[H1 H2 H3]].
+  intros d Hd. rewrite H2, H3. lia.
+Qed.
+
+Lemma xstep_with_eq gi lk :
+  LK_SIM gi lk -> forall m o, script_op o = true -> Inv c m ->
+  exists m' out, xstep1_with gi c m o = (m', out) /\ Inv c m'
+    /\ xspec_step_with lk c (abs m) o = (abs m', out)
+    /\ (exists new, calls m' = new ++ calls m) /\ mono m m'.
+Proof.
+  intros LS m o SO I. destruct (is_lookup o) eqn:L.
+  - destruct (LS m (match o with GetItem k | Get k _ | SetDefault k _ => k | _ => 0 end) I)
+      as [m' [rv [E [I' [X [C [MO ST]]]]]]].
+    destruct o; simpl in L; try discriminate; simpl xstep1_with; simpl xspec_step_with; rewrite E, X.
+    + destruct rv as [v|e]; simpl; (eexists; eexists; split; [reflexivity|]; split; [exact I'|]; split; [reflexivity|]; split; [exact C|exact MO]).
+    + destruct rv as [v|e]; [eexists; eexists; split; [reflexivity|]; split; [exact I'|]; split; [reflexivity|]; split; [exact C|exact MO]|].
+      pose proof (ST (ex_intro _ e eq_refl)) as ST'.
+      destruct e; try (eexists; eexists; split; [reflexivity|]; split; [exact I'|]; split; [reflexivity|]; split; [exact C|exact MO]; fail).
+      eexists. eexists. split; [reflexivity|]. split.
+      { destruct I'. constructor; simpl; try assumption. assert (S0 : (soft m <= miss m)%N) by (destruct I; assumption).
+        specialize (ST' 0%N). rewrite N.add_0_r in ST'. specialize (ST' S0). lia. }
+      split; [reflexivity|]. split; [exact C|]. intros d0 Hd. simpl. specialize (ST' d0 Hd). lia.
+    + destruct rv as [v|e]; [eexists; eexists; split; [reflexivity|]; split; [exact I'|]; split; [reflexivity|]; split; [exact C|exact MO]|].
+      pose proof (ST (ex_intro _ e eq_refl)) as ST'.
+      destruct e; try (eexists; eexists; split; [reflexivity|]; split; [exact I'|]; split; [reflexivity|]; split; [exact C|exact MO]; fail).
+      assert (IB : Inv c (bump_soft m')).
+      { destruct I'. constructor; simpl; try assumption. assert (S0 : (soft m <= miss m)%N) by (destruct I; assumption).
+        specialize (ST' 0%N). rewrite N.add_0_r in ST'. specialize (ST' S0). lia. }
+      destruct (setitem_sim c (bump_soft m') k d Hmax IB) as [m2 [E2 [I2 [A2 [C2 [H2 [M2 S2]]]]]]].
+      rewrite E2. simpl. exists m2, (Ok (OVal d)). split; [reflexivity|]. split; [exact I2|].
+      split; [now rewrite A2|]. split.
+      * destruct C as [new C]. exists new. rewrite C2. exact C.
+      * intros d0 Hd. rewrite S2, M2. simpl. specialize (ST' d0 Hd). lia.
+  - destruct (plain_step_eq m o SO L I) as [m' [out [E [I' [SS [C MO]]]]]].
+    exists m', out. split; [destruct o; simpl in L; try discriminate; exact E|].
+    split; [exact I'|]. split; [destruct o; simpl in L; try discriminate; exact SS|]. split; assumption.
+Qed.
+
+Lemma run_script_sim gi lk :
+  LK_SIM gi lk -> forall ops m, forallb script_op ops = true -> Inv c m ->
+  exists m' oe, run_script (xstep1_with gi c) m ops = (m', oe) /\ Inv c m'
+    /\ r_run_script (xspec_step_with lk c) (abs m) ops = (abs m', oe)
+    /\ (exists new, calls m' = new ++ calls m) /\ mono m m'.
+Proof.
+  intros LS ops. induction ops as [|o rest IH]; intros m OK I; simpl.
+  - exists m, None. split; [reflexivity|]. split; [exact I|]. split; [reflexivity|]. split; [now exists []|apply mono_refl].
+  - simpl in OK. apply andb_true_iff in OK as [O1 O2].
+    destruct (xstep_with_eq gi lk LS m o O1 I) as [m1 [out [E [I1 [X [[n1 C1] MO1]]]]]]. rewrite E, X.
+    assert (CONT : exists m' oe, run_script (xstep1_with gi c) m1 rest = (m', oe) /\ Inv c m'
+              /\ r_run_script (xspec_step_with lk c) (abs m1) rest = (abs m', oe)
+              /\ (exists new, calls m' = new ++ calls m) /\ mono m m').
+    { destruct (IH m1 O2 I1) as [m2 [oe [E2 [I2 [X2 [[n2 C2] MO2]]]]]].
+      exists m2, oe. split; [exact E2|]. split; [exact I2|]. split; [exact X2|]. split.
+      - exists (n2 ++ n1). rewrite C2, C1. now rewrite app_assoc.
+      - eapply mono_trans; eauto. }
+    destruct out as [x|e]; [exact CONT|].
+    destruct e; try exact CONT;
+      (exists m1; eexists; split; [reflexivity|]; split; [exact I1|]; split; [reflexivity|];
+       split; [now exists n1|exact MO1]).
+Qed.
+
+Variable beh : K -> om_beh.
+Hypothesis SOK : scripts_ok beh.
+
+Lemma xgetitem_n_sim n : LK_SIM (xgetitem_n n c beh) (xr_lookup_n n c beh).
+Proof.
+  induction n as [|n IH]; intros m k I; pose proof I as [NR NS SAME LEN CAP SOFT];
+    cbn [xgetitem_n xr_lookup_n]; cbn [r_items r_hit r_miss r_soft r_calls store ring hit miss soft calls abs];
+    destruct (d_get (ring m) k) as [v|] eqn:G.
+  1, 3:
+    (eexists; exists (Ok v); split; [reflexivity|]; split;
+     [ assert (Hk : In k (keys (ring m))) by (eapply d_get_some_keys; eauto);
+       destruct (c_cls c); constructor; simpl; try assumption;
+       [ apply nodup_keys_snoc; [now apply nodup_del|now apply not_in_keys_del]
+       | intro k'; rewrite d_get_move_end by assumption; apply SAME
+       | rewrite app_length; simpl; rewrite <- (length_del_in (ring m) k) in LEN by assumption; lia
+       | rewrite app_length; simpl; rewrite <- (length_del_in (ring m) k) in CAP by assumption; lia ]
+     | split; [reflexivity|]; split; [exists []; reflexivity|]; split;
+       [ intros d Hd; simpl; exact Hd | intros [e E]; discriminate ] ]).
+  - (* no nesting left *)
+    destruct (c_on_miss c) as [f|].
+    + eexists. exists (Raise (OtherExn 9)). split; [reflexivity|]. split; [constructor; simpl; try assumption; lia|].
+      split; [reflexivity|]. split; [exists [k]; reflexivity|]. split; [intros d Hd; simpl; lia|intros _ d Hd; simpl; lia].
+    + eexists. exists (Raise KeyError). split; [reflexivity|]. split; [constructor; simpl; try assumption; lia|].
+      split; [reflexivity|]. split; [exists []; reflexivity|]. split; [intros d Hd; simpl; lia|intros _ d Hd; simpl; lia].
+  - destruct (c_on_miss c) as [f|].
     + set (m2 := mkC (store m) (ring m) (hit m) (miss m + 1)%N (soft m) (k :: calls m)).
       assert (I2 : Inv c m2) by (constructor; simpl; try assumption; lia).
-      destruct (run_script_sim c (ob_script (beh k)) m2 Hmax I2 (SOK k)) as [I3 [A3 [C3 [H3 [M3 S3]]]]].
-      set (m3 := run_script c m2 (ob_script (beh k))) in *.
-      change (mkR (ring m) (hit m) (miss m + 1)%N (soft m) (k :: calls m)) with (abs m2). rewrite <- A3.
-      destruct (ob_raise (beh k)) as [e|].
+      destruct (run_script_sim _ _ IH (ob_script (beh k)) m2 (SOK k) I2) as [m3 [oe [E3 [I3 [X3 [[n3 C3] MO3]]]]]].
+      change (mkR (ring m) (hit m) (miss m + 1)%N (soft m) (k :: calls m)) with (abs m2).
+      rewrite E3, X3.
+      assert (GAIN : forall d, (soft m + d <= miss m)%N -> (soft m3 + d + 1 <= miss m3)%N).
+      { intros d Hd. assert (H2 : (soft m2 + (d + 1) <= miss m2)%N) by (simpl; lia).
+        specialize (MO3 (d + 1)%N H2). lia. }
+      assert (CALLS : calls m3 = (n3 ++ [k]) ++ calls m) by (rewrite C3; simpl; now rewrite <- app_assoc).
+      destruct oe as [e|].
       * exists m3, (Raise e). split; [reflexivity|]. split; [exact I3|]. split; [reflexivity|].
-        split; [exists [k]; rewrite C3; reflexivity|]. intros _. rewrite S3, M3. simpl. lia.
-      * destruct (setitem_sim c m3 k (f k) Hmax I3) as [m4 [E [I4 [A4 [C4 [H4 [M4 S4]]]]]]].
-        rewrite E. exists m4, (Ok (f k)). split; [reflexivity|]. split; [exact I4|].
-        split; [now rewrite A4|]. split; [exists [k]; rewrite C4, C3; reflexivity|].
-        intros [e Ee]. discriminate.
-    + eexists. exists (Raise KeyError). split; [reflexivity|]. split.
-      * constructor; simpl; try assumption; lia.
-      * split; [reflexivity|]. split; [exists []; reflexivity|]. intros _. simpl. lia.
+        split; [eexists; exact CALLS|]. split; [intros d Hd; specialize (GAIN d Hd); lia|intros _; exact GAIN].
+      * destruct (ob_raise (beh k)) as [e|].
+        -- exists m3, (Raise e). split; [reflexivity|]. split; [exact I3|]. split; [reflexivity|].
+           split; [eexists; exact CALLS|]. split; [intros d Hd; specialize (GAIN d Hd); lia|intros _; exact GAIN].
+        -- destruct (setitem_sim c m3 k (f k) Hmax I3) as [m4 [E4 [I4 [A4 [C4 [H4 [M4 S4]]]]]]].
+           rewrite E4. exists m4, (Ok (f k)). split; [reflexivity|]. split; [exact I4|].
+           split; [now rewrite A4|]. split; [eexists; rewrite C4; exact CALLS|].
+           split; [intros d Hd; rewrite S4, M4; specialize (GAIN d Hd); lia|intros [e Ee]; discriminate].
+    + eexists. exists (Raise KeyError). split; [reflexivity|]. split; [constructor; simpl; try assumption; lia|].
+      split; [reflexivity|]. split; [exists []; reflexivity|]. split; [intros d Hd; simpl; lia|intros _ d Hd; simpl; lia].
 Qed.
+
+End Nested.
 
 Local Arguments spec_accept : simpl never.
 
@@ -106,37 +178,40 @@ Lemma xstep1_sim c beh m o :
 Proof.
   intros Hmax SOK I.
   destruct (is_lookup o) eqn:L.
-  - destruct (xgetitem_sim c beh m (match o with GetItem k | Get k _ | SetDefault k _ => k | _ => 0 end) Hmax SOK I)
-      as [m' [rv [E [I' [X [C LT]]]]]].
-    destruct o; simpl in L; try discriminate; simpl xstep1; rewrite E.
+  - destruct (xgetitem_n_sim c Hmax beh SOK NEST m (match o with GetItem k | Get k _ | SetDefault k _ => k | _ => 0 end) I)
+      as [m' [rv [E [I' [X [C [MO ST]]]]]]].
+    assert (LT : (exists e, rv = Raise e) -> (soft m' < miss m')%N).
+    { intro HE. assert (S0 : (soft m + 0 <= miss m)%N) by (destruct I; lia). specialize (ST HE 0%N S0). lia. }
+    fold (xgetitem c beh) in E. fold (xr_lookup c beh) in X.
+    destruct o; simpl in L; try discriminate; unfold xstep1; simpl xstep1_with; rewrite E.
     + (* GetItem *)
       destruct rv as [v|e]; simpl; eexists; eexists; (split; [reflexivity|]); (split; [exact I'|]);
-        (split; [|exact C]); apply xaccept_lookup; auto; simpl; now rewrite X.
+        (split; [|exact C]); apply xaccept_lookup; auto; unfold xspec_step; simpl; now rewrite X.
     + (* Get *)
       destruct rv as [v|e].
       * eexists. eexists. split; [reflexivity|]. split; [exact I'|]. split; [|exact C].
-        apply xaccept_lookup; auto. simpl. now rewrite X.
+        apply xaccept_lookup; auto. unfold xspec_step. simpl. now rewrite X.
       * assert (LT' : (soft m' < miss m')%N) by (apply LT; eauto).
         destruct e; try (eexists; eexists; split; [reflexivity|]; split; [exact I'|]; split; [|exact C];
-                         apply xaccept_lookup; auto; simpl; now rewrite X).
+                         apply xaccept_lookup; auto; unfold xspec_step; simpl; now rewrite X).
         eexists. eexists. split; [reflexivity|]. split.
         { destruct I'. constructor; simpl; try assumption. lia. }
-        split; [|exact C]. apply xaccept_lookup; auto. simpl. now rewrite X.
+        split; [|exact C]. apply xaccept_lookup; auto. unfold xspec_step. simpl. now rewrite X.
     + (* SetDefault *)
       destruct rv as [v|e].
       * eexists. eexists. split; [reflexivity|]. split; [exact I'|]. split; [|exact C].
-        apply xaccept_lookup; auto. simpl. now rewrite X.
+        apply xaccept_lookup; auto. unfold xspec_step. simpl. now rewrite X.
       * assert (LT' : (soft m' < miss m')%N) by (apply LT; eauto).
         destruct e; try (eexists; eexists; split; [reflexivity|]; split; [exact I'|]; split; [|exact C];
-                         apply xaccept_lookup; auto; simpl; now rewrite X).
+                         apply xaccept_lookup; auto; unfold xspec_step; simpl; now rewrite X).
         assert (IB : Inv c (bump_soft m')). { destruct I'. constructor; simpl; try assumption. lia. }
         destruct (setitem_sim c (bump_soft m') k d Hmax IB) as [m2 [E2 [I2 [A2 [C2 _]]]]].
         rewrite E2. simpl. exists m2, (Ok (OVal d)). split; [reflexivity|]. split; [exact I2|]. split.
-        -- apply xaccept_lookup; auto. simpl. rewrite X. now rewrite A2.
+        -- apply xaccept_lookup; auto. unfold xspec_step. simpl. rewrite X. now rewrite A2.
         -- destruct C as [new C]. exists new. rewrite C2. exact C.
   - destruct (step1_sim c m o Hmax I) as [m' [out [E [I' [A C]]]]].
     exists m', out. split.
-    + destruct o; simpl in L; try discriminate; exact E.
+    + unfold xstep1. destruct o; simpl in L; try discriminate; exact E.
     + split; [exact I'|]. split; [|exact C]. unfold xspec_accept. now rewrite L.
 Qed.
 
